@@ -125,8 +125,36 @@ def correspondence(ctx):
                              region=_region(name, s, o[0]), spec="valid iff constructible; InvalidVersion; round trip")
         if name == "pypi":
             ctx.sample({"scheme": name, "text": "1.0rc1", "oracle": "no violation" if oracle(name, "1.0rc1") is None else "violation"})
+    _long_digit_runs(ctx)
     if ctx.thorough:
         search(ctx)
+
+
+def _long_digit_runs(ctx):
+    """grammar strings with one digit run made longer than CPython's int() text limit (4300 digits): whatever the
+    scheme does with such a text, the validity check and the constructor agree and a refusal is InvalidVersion"""
+    import re
+    per = 40 if ctx.thorough else 8
+    for name in A.ALL:
+        rng = ctx.rng("c11-long", name)
+        stream = "long-digit-runs:" + name
+        for _ in range(per):
+            try:
+                s = S.GEN[name](rng)
+            except Exception:  # noqa: BLE001
+                continue
+            runs = [m.span() for m in re.finditer(r"[0-9]+", s)]
+            if not runs:
+                continue
+            i, j = rng.choice(runs)
+            t = s[:i] + str(rng.randint(1, 9)) * rng.choice([4301, 4400]) + s[j:]
+            o = oracle(name, t)
+            ctx.count(stream, key=(s, i), nontrivial=True)
+            if o and o[0] != "roundtrip":
+                ctx.disagree(stream, "oracle %s" % name, o[1], "-", True,
+                             {"scheme": name, "text_shape": s, "long_run_at": i, "clause": o[1] + " (a digit run of more than 4300 digits)",
+                              "python": "from univers.versions import %s as V; s=%r; V(s[:%d] + '7'*4400 + s[%d:])" % (S.vclass(name).__name__, s, i, j)},
+                             region=_region(name, t, o[0]), spec="valid iff constructible; InvalidVersion")
 
 
 PUNCT = list(":;,!@#%&*()=[]{}<>/?\\|'\"` $^~_+-.") + list("0aZ")
